@@ -521,18 +521,18 @@ func (b *caseB) step() string {
 		b.set(v, t)
 	})
 	add(FCommaOk, "tuple-lookup", 3, true, func() {
-		// `_, table := load(); v, ok := table[k]`: a call result of index 1 read by a comma-ok lookup
-		h, m, a, v := b.top("h"), b.v(), b.v(), b.v()
-		b.decl(`func %s(x map[string]%s) (string, map[string]%s) { return "k", x }`, h, ts, ts)
-		b.emit(`%s := map[string]%s{"k": %s}`, m, ts, c)
-		b.emit("_, %s := %s(%s)", a, h, m)
+		// `_, table := load(); v, ok := table[k]`: the map is built in the callee and comes back as call
+		// result #1 (no alias on the caller's side), then a comma-ok lookup
+		h, a, v := b.top("h"), b.v(), b.v()
+		b.decl(`func %s(x %s) (string, map[string]%s) { return "k", map[string]%s{"k": x} }`, h, ts, ts, ts)
+		b.emit("_, %s := %s(%s)", a, h, c)
 		b.emit(`%s, _ := %s["k"]`, v, a)
 		b.set(v, t)
 	})
 	add(FCommaOk, "tuple-assert", 3, t.K != KAny, func() {
-		// `_, e := load(); v, ok := e.(T)`: a call result of index 1 read by a comma-ok assertion (C08b)
+		// `_, e := load(); v, ok := e.(T)`: boxed in the callee, call result #1, comma-ok assertion (C08b)
 		h, a, v := b.top("h"), b.v(), b.v()
-		b.decl(`func %s(x any) (string, any) { return "k", x }`, h)
+		b.decl(`func %s(x %s) (string, any) { return "k", x }`, h, ts)
 		b.emit("_, %s := %s(%s)", a, h, c)
 		b.emit("%s, _ := %s.(%s)", v, a, ts)
 		b.set(v, t)
